@@ -97,7 +97,7 @@ pub fn record(output: &str) {
     quiet_panics();
     let mut out = Out::create(output);
     let mut r = rng(1313);
-    let n = if thorough() { 120 } else { 14 };
+    let n = if thorough() { 120 } else { 22 };
     let mut made = 0;
     let mut tries = 0;
     while made < n && tries < n * 20 {
@@ -116,7 +116,10 @@ pub fn record(output: &str) {
         let plate_case = tries % 3 == 2;
         let plate = crate::scene::WBox { c: [fl[0], fl[1], fl[2] + 0.07], h: [0.35, 0.35, 0.004] };
         // (every second slab case keeps a 7 cm safety distance to the environment)
-        let case = if asym { shape::make_case_with(&mut r, 6 * tries, 0, tries % 2 == 0, Some((0.15, 6.1)), &slab) }
+        // every sixth cell is empty: the only thing to run into is the robot itself (bulky links, tool, base)
+        let selfc = !asym && !plate_case && tries % 6 == 0;
+        let case = if selfc { shape::make_case_with(&mut r, 3 * tries + 2, 0, false, None, &[]) }
+                   else if asym { shape::make_case_with(&mut r, 6 * tries, 0, tries % 2 == 0, Some((0.15, 6.1)), &slab) }
                    else if plate_case { shape::make_case_with(&mut r, 6 * tries, 0, true, None, &[plate]) }
                    else { shape::make_case_with(&mut r, tries, 2 + tries % 3, tries % 4 == 3, None, &[]) };
         let kws = &case.kws;
@@ -134,6 +137,16 @@ pub fn record(output: &str) {
             if kws.collides(&s) || kws.collides(&g) { continue; }
             if std::env::var("VERIF_DEBUG").is_ok() { eprintln!("pillar/plate case {}: mid collides = {} details {:?} env {}", plate_case, kws.collides(&mid), kws.collision_details(&mid), kws.body.collision_environment.len()); }
             (s, g)
+        } else if selfc {
+            // free ends whose straight connection in joint space runs through a self-collision
+            let mut found = None;
+            for _ in 0..300 {
+                let (Some(s), Some(g)) = (pick_free(&mut r), pick_free(&mut r)) else { break; };
+                let through = (1..20).any(|i| { let f = i as f64 / 20.0; let m: Joints = std::array::from_fn(|j| s[j] + (g[j] - s[j]) * f); kws.collides(&m) });
+                if through { found = Some((s, g)); break; }
+            }
+            let Some(sg) = found else { continue; };
+            sg
         } else {
             let (Some(s), Some(g)) = (pick_free(&mut r), pick_free(&mut r)) else { continue; };
             (s, g)
@@ -142,7 +155,10 @@ pub fn record(output: &str) {
         let step_deg = [3.0, 6.0, 12.0][made % 3];
         let planner = RRTPlanner { step_size_joint_space: (step_deg as f64).to_radians(), max_try: [2000, 300, 40][made % 3], debug: false };
         let shared = Arc::new(AtomicBool::new(true));     // one flag raised once by the caller, guarding several calls
-        for mode in ["plain", "stop-before", "stop-during", "stop-before-again"] {
+        for mode in ["plain", "stop-before", "stop-during", "stop-before-again", "nowhere-plain", "nowhere-stop-before"] {
+            // (the last two: a relocation to where the robot already is)
+            let goal = if mode.starts_with("nowhere") { start } else { goal };
+            let mode = mode.trim_start_matches("nowhere-");
             let stop = if mode == "stop-before" || mode == "stop-before-again" { shared.clone() } else { Arc::new(AtomicBool::new(false)) };
             let raiser = if mode == "stop-during" {
                 let s = stop.clone();
@@ -153,7 +169,7 @@ pub fn record(output: &str) {
             if let Some(h) = raiser { let _ = h.join(); }
             let mode = if mode == "stop-before-again" { "stop-before" } else { mode };
             let mut e = json!({"ev": "rrtplan", "mode": mode, "step_au": rad2au(planner.step_size_joint_space), "max_try": planner.max_try,
-                "start": au6(&start), "goal": au6(&goal), "from": au6(&case.from), "to": au6(&case.to), "case": made, "ctor": case.ctor});
+                "start": au6(&start), "goal": au6(&goal), "from": au6(&case.from), "to": au6(&case.to), "case": made, "ctor": case.ctor, "empty_cell": selfc, "nowhere": goal == start});
             match res {
                 None => { e["outcome"] = json!("panic"); e["nodes"] = json!([]); }
                 Some(Err(msg)) => { e["outcome"] = json!("err"); e["msg"] = json!(msg); e["nodes"] = json!([]); }
